@@ -205,6 +205,10 @@ func apply(f func(uint64) uint64, v uint64) uint64 {
 	return f(v)
 }
 
+func (i In) hv() uint64 {
+	return i.h + 1
+}
+
 func mkAdder(k uint64) func(uint64) uint64 {
 	return func(z uint64) uint64 {
 		return z + k
@@ -246,12 +250,28 @@ type Package struct {
 // Render lays the programs out as a Go package "p" (plus the !goose runtime files).
 func Render(progs []Prog, rt string) Package {
 	pk := Package{Progs: progs, Files: map[string]string{}}
-	var plain, prims strings.Builder
+	var plain, prims, syncf strings.Builder
+	syncf.WriteString("package p\n\nimport \"sync\"\n\n")
+	nsync := 0
 	plain.WriteString("package p\n" + declsPrelude + "\n")
 	prims.WriteString("package p\n\nimport \"github.com/goose-lang/goose/machine\"\n\n")
 	nprims := 0
+	seenDecls := map[string]bool{}
 	for _, p := range progs {
-		if p.Form.Prims {
+		if p.Form.Decls != "" && !seenDecls[p.Form.ID] {
+			seenDecls[p.Form.ID] = true
+			dst := &plain
+			if p.Form.Sync {
+				dst = &syncf
+			}
+			dst.WriteString("// DECLS " + p.Form.ID + "\n" + p.Form.Decls + "// ENDDECLS\n\n")
+		}
+	}
+	for _, p := range progs {
+		if p.Form.Sync {
+			syncf.WriteString(p.Source + "\n")
+			nsync++
+		} else if p.Form.Prims {
 			prims.WriteString(p.Source + "\n")
 			nprims++
 		} else {
@@ -261,6 +281,9 @@ func Render(progs []Prog, rt string) Package {
 	pk.Files["p/a_progs.go"] = plain.String()
 	if nprims > 0 {
 		pk.Files["p/b_prims.go"] = prims.String()
+	}
+	if nsync > 0 {
+		pk.Files["p/b_sync.go"] = syncf.String()
 	}
 	// function table and vectors (excluded from goose by the build tag)
 	var tb strings.Builder
